@@ -34,6 +34,9 @@ def main(argv):
             out[str(i)] = ctx.digest()
         print(json.dumps(out))
         return 0
+    if cmd == "repeat-exec":
+        from .worlds import repeat
+        return repeat.repeat_exec_main(argv[1])
     if cmd == "childdigest":
         from .worlds import repeat
         return repeat.childdigest_main(argv[1])
